@@ -136,17 +136,24 @@ def rule_T(ctx):
         st.env[v] = Rat.atom(v + '@')
     st.env[iv] = Rat.atom(iv)
     outs = list(w.run(lo.body, st))
-    # the running start index: the variable passed as first argument of extract
+    # the running start of the current piece: first argument of extract, affine in one loop-carried variable
     bname = None
+    off = None
     for o in outs:
         for e in o.state.events:
-            if e.kind == 'call' and e.name == 'extract' and isinstance(e.args[0], Rat) and (e.args[0].single_atom() or '').endswith('@'):
-                bname = e.args[0].single_atom()[:-1]
+            if e.kind == 'call' and e.name == 'extract' and isinstance(e.args[0], Rat) and e.args[0].ispoly():
+                carried = [a for a in e.args[0].atoms() if a.endswith('@') and a[:-1] in assigned]
+                if len(carried) == 1 and e.args[0].n.degree_in(carried[0]) == 1 and e.args[0].n.coeff(carried[0], 1).isconst() \
+                        and e.args[0].n.coeff(carried[0], 1).constval() == 1:
+                    rest = e.args[0] - Rat.atom(carried[0])
+                    if rest.isconst():
+                        bname, off = carried[0][:-1], rest
     if bname is None:
-        raise shape_error('split(): extract(begin, i) not found', f.loc(lo))
+        raise shape_error('split(): extract(<start of the piece>, i) not found', f.loc(lo))
+    start = lambda v: v + off
     b0 = pst.env.get(bname)
-    ctx.check(isinstance(b0, Rat) and b0.isconst() and b0.constval() == 0, 'C11.T', f, 'the first piece starts at observation 0',
-              witness={'initial begin': vr(b0)}, node=lo, key='begin0')
+    ctx.check(isinstance(b0, Rat) and w.rel.is_zero(start(b0)), 'C11.T', f, 'the first piece starts at observation 0',
+              witness={'initial start': vr(start(b0)) if isinstance(b0, Rat) else vr(b0)}, node=lo, key='begin0')
     marker = '%s.getObsAnalyticalFeature(%s, %s)' % (tr, src, iv)
     n_cut = n_plain = 0
     for o in outs:
@@ -164,12 +171,13 @@ def rule_T(ctx):
             ctx.check(marked is True, 'C11.E', f, 'a piece is cut only at an observation whose marker is 1',
                       witness={'path conditions': pathtxt}, node=calls[0].node, key='cut-guard')
             a = calls[0].args
-            ctx.check(len(calls) == 1 and vr(calls[0].recv) == tr and vr(a[0]) == bname + '@' and vr(a[1]) == iv, 'C11.T', f,
-                      'the piece cut at a marked observation i is [begin, i]', witness={'extract': [vr(x) for x in a]},
+            ctx.check(len(calls) == 1 and vr(calls[0].recv) == tr and isinstance(a[0], Rat) and
+                      w.rel.is_zero(a[0] - start(Rat.atom(bname + '@'))) and vr(a[1]) == iv, 'C11.T', f,
+                      'the piece cut at a marked observation i is [start of the piece, i]', witness={'extract': [vr(x) for x in a]},
                       node=calls[0].node, key='piece')
-            ctx.check(isinstance(bnew, Rat) and w.rel.is_zero(bnew - Rat.atom(iv) - Rat.const(1)), 'C11.T', f,
+            ctx.check(isinstance(bnew, Rat) and w.rel.is_zero(start(bnew) - Rat.atom(iv) - Rat.const(1)), 'C11.T', f,
                       'the next piece begins at i + 1 (no observation lost or duplicated)',
-                      witness={'next begin': vr(bnew), 'expected': '%s + 1' % iv}, node=calls[0].node, key='next-begin')
+                      witness={'next start': vr(start(bnew)) if isinstance(bnew, Rat) else vr(bnew), 'expected': '%s + 1' % iv}, node=calls[0].node, key='next-begin')
             ctx.check(len(adds) == 1 and vr(adds[0].args[0]) == calls[0].value, 'C11.T', f,
                       'the piece is added to the result (limit = 0)', witness={'adds': [repr(e) for e in adds]},
                       node=calls[0].node, key='added')
@@ -177,36 +185,40 @@ def rule_T(ctx):
             n_plain += 1
             ctx.check(marked is False and isinstance(bnew, Rat) and vr(bnew) == bname + '@' and not adds, 'C11.E', f,
                       'an unmarked observation cuts nothing and leaves the current piece open',
-                      witness={'path conditions': pathtxt, 'begin after': vr(bnew)}, node=lo, key='plain')
+                      witness={'path conditions': pathtxt, 'start after': vr(bnew)}, node=lo, key='plain')
     if n_cut == 0 or n_plain == 0:
         raise shape_error('split(): marked / unmarked paths not both found', f.loc(lo))
-    # tail
+    # tail: emitted exactly when some observation was marked, i.e. when the start is no longer 0
     post = arm.body[arm.body.index(lo) + 1:]
-    st2 = pst.fork()
-    st2.events = []
-    st2.env[bname] = Rat.atom(bname + '!')
-    touts = list(w.run(post, st2))
     seen_tail = False
-    for o in touts:
+    emitted = {}
+    for sval in (0, 1, 2, 7):
+        st2 = pst.fork()
+        st2.events = []
+        st2.conds = []
+        st2.env[bname] = Rat.const(sval) - off
+        st2.env[limit] = Rat.const(0)
+        touts = [o for o in w.run(post, st2) if o.kind == 'fall']
+        if len(touts) != 1:
+            raise shape_error('split(): tail is not single-path for a given start', f.loc(arm))
+        o = touts[0]
         calls = [e for e in o.state.events if e.kind == 'call' and e.name == 'extract']
-        nz = None
-        for c, _ in o.state.conds:
-            for cj in c.conjuncts():
-                if cj.kind == 'cmp' and cj.op in ('==', '!=') and {vr(cj.a), vr(cj.b)} == {bname + '!', '0'}:
-                    nz = cj.op == '!='
+        adds = [e for e in o.state.events if e.kind == 'call' and e.name == 'addTrack']
+        emitted[sval] = bool(calls) and bool(adds)
         if calls:
             seen_tail = True
             a = calls[0].args
-            ctx.check(vr(a[0]) == bname + '!' and isinstance(a[1], Rat) and
+            ctx.check(isinstance(a[0], Rat) and w.rel.is_zero(a[0] - Rat.const(sval)) and isinstance(a[1], Rat) and
                       w.rel.is_zero(a[1] - (Rat.atom('%s.size()' % tr) - Rat.const(1))), 'C11.T', f,
-                      'the last piece is [begin, size-1]', witness={'extract': [vr(x) for x in a]}, node=calls[0].node, key='tail')
-            ctx.check(nz is True, 'C11.E', f, 'the tail is emitted only when some observation was marked (begin != 0)',
-                      witness={'path conditions': [repr(c) for c, _ in o.state.conds]}, node=calls[0].node, key='tail-guard')
-            adds = [e for e in o.state.events if e.kind == 'call' and e.name == 'addTrack']
+                      'the last piece is [start, size-1]', witness={'extract': [vr(x) for x in a], 'start': sval}, node=calls[0].node, key='tail')
             ctx.check(len(adds) == 1 and vr(adds[0].args[0]) == calls[0].value, 'C11.T', f, 'the tail piece is added to the result',
                       witness={}, node=calls[0].node, key='tail-added')
-        elif nz is False:
-            ctx.ok('C11.E', f, 'with no marked observation nothing is emitted (documented)', node=arm)
+    wrong = {k: v for k, v in emitted.items() if v != (k != 0)}
+    ctx.check(not wrong, 'C11.E', f,
+              'the tail is emitted exactly when some observation was marked (start of the open piece != 0); nothing is emitted when nothing is marked',
+              witness={'start of the open piece -> tail emitted': emitted,
+                       'why': 'e.g. a track whose only marked observation is the first one: the piece [0] comes back but observations 1..n-1 are lost'},
+              node=arm, key='tail-guard')
     if not seen_tail:
         raise shape_error('split(): tail extract not found', f.loc(arm))
     other = [n for n in ast.walk(arm) if isinstance(n, ast.Call) and getattr(n.func, 'attr', None) == 'extract']
